@@ -193,7 +193,7 @@ func RunC02(env *sim.Env) {
 	files[victim] = src
 	if strings.Contains(mutKind, "-cycle:two") {
 		kw := strings.SplitN(mutKind, "-", 2)[0]
-		files["/zcycle.jet"] = dc.l + kw + ` "` + victim + `"` + dc.r
+		files["/zcycle.jet"] = dc.l + kw + ` "` + shortName(t, victim) + `"` + dc.r
 		names = append(names, "/zcycle.jet")
 	}
 
@@ -245,6 +245,12 @@ func RunC02(env *sim.Env) {
 	if devMode {
 		sopts = append(sopts, jet.InDevelopmentMode())
 	}
+	if diamond != "" && t.Choose(2) == 1 {
+		// a user-supplied cache that keeps nothing (legal: a cache may forget): what one lookup loads is
+		// still loaded once
+		sopts = append(sopts, jet.WithCache(forgetfulCache{}))
+		env.Stat("probe:diamond_import_graph_with_a_cache_that_keeps_nothing", 1)
+	}
 	set := jet.NewSet(ld, sopts...)
 
 	// ---- calls
@@ -289,6 +295,12 @@ func RunC02(env *sim.Env) {
 			})
 		})
 		faulted := totalFired(ld) > faultsBefore
+		if pc == nil && err == nil && ld.Fired[loadersim.FaultPanic] > panicsBefore {
+			// the loader panicked while this call was loading what the template refers to: the call ends
+			// with that panic or with an error - a template put together without one of its references
+			// is not a usable one
+			env.Violate("result-shape", "success-although-the-loader-panicked", "%s(%q) [delimiters %s, dev=%v] returned a template and no error although the loader panicked during the call\nloader: %v", c.kind, c.name, dc.name, devMode, ld.Trace)
+		}
 		if pc != nil && ld.Fired[loadersim.FaultPanic] > panicsBefore {
 			// the loader itself panicked and its panic came out of the call: not the parser's doing.
 			// What must still hold: no goroutine is left behind.
@@ -364,6 +376,12 @@ func RunC02(env *sim.Env) {
 	env.Res.Sig = fmt.Sprintf("%016x", sim.HashString(dc.name+"\x00"+victim+"\x00"+src+"\x00"+fmt.Sprint(len(names), nFaults)))
 	env.Res.Sample = fmt.Sprintf("delimiters=%s files=%v victim=%s mutation=%s must-reject=%v\nsource: %s", dc.name, names, victim, mutKind, mustReject, sim.Q(src))
 }
+
+// forgetfulCache is a jet.Cache that keeps nothing.
+type forgetfulCache struct{}
+
+func (forgetfulCache) Get(string) *jet.Template  { return nil }
+func (forgetfulCache) Put(string, *jet.Template) {}
 
 func totalFired(l *loadersim.SimLoader) int {
 	n := 0
@@ -459,15 +477,24 @@ func minInt(a, b int) int {
 	return b
 }
 
+// shortName spells a template's name without its ".jet" half of the time.
+func shortName(t *sim.Tape, name string) string {
+	if t.Choose(2) == 1 {
+		return strings.TrimSuffix(name, ".jet")
+	}
+	return name
+}
+
 // groundTruth builds a source that is structurally wrong for certain.
 func groundTruth(t *sim.Tape, s string, d delims, victim string, names []string) (string, string, bool) {
 	switch t.Choose(11) {
 	case 9: // a template that extends or imports itself: an error, not an endless recursion
 		kw := []string{"extends", "import"}[t.Choose(2)]
-		return d.l + kw + ` "` + victim + `"` + d.r + s, kw + "-cycle:self", true
+		// (half of the time by a name that needs an extension appended to become the file's name)
+		return d.l + kw + ` "` + shortName(t, victim) + `"` + d.r + s, kw + "-cycle:self", true
 	case 10: // ... or through a second template
 		kw := []string{"extends", "import"}[t.Choose(2)]
-		return d.l + kw + ` "/zcycle.jet"` + d.r + s, kw + "-cycle:two", true
+		return d.l + kw + ` "` + shortName(t, "/zcycle.jet") + `"` + d.r + s, kw + "-cycle:two", true
 	case 8: // comment whose "closing" marker overlaps the opening one: {*} is {* followed by }, never closed
 		k := 0
 		for n := 1; n <= len(d.cl) && n <= len(d.cr); n++ {
